@@ -823,6 +823,14 @@ func (g *Gen) allProps() []string {
 				m[t] = true
 			}
 		}
+		for _, c := range g.con.Covers {
+			for _, t := range c.Tags {
+				m[t] = true
+			}
+		}
+		for _, t := range g.con.CalleeTags {
+			m[t] = true
+		}
 	}
 	return sortedKeys(m)
 }
